@@ -10,6 +10,7 @@ pub mod mutate;
 pub mod refcobs;
 pub mod refcodec;
 pub mod record;
+pub mod record_value;
 pub mod refcrc;
 pub mod runner;
 pub mod schematree;
